@@ -56,8 +56,12 @@ def schema_text(tmpl):
                 '<xs:unique name="U"><xs:selector xpath="u"/><xs:field xpath="."/></xs:unique>'
                 '<xs:keyref name="F" refer="K"><xs:selector xpath="f"/><xs:field xpath="."/></xs:keyref>'
                 '</xs:element></xs:sequence></xs:complexType></xs:element></xs:schema>')
-    fields_decl_attr = ''.join('<xs:attribute name="a%d" type="%s"/>' % (i, types[i]) for i in range(nf) if onattr[i])
-    fields_decl_el = ''.join('<xs:element name="c%d" type="%s" minOccurs="0"/>' % (i, types[i])
+    # a default value on a field's declaration: it supplies the value of an absent attribute, never that of an absent child
+    dflt = tmpl.get('defaults') or [None] * nf
+    def dv(i):
+        return '' if dflt[i] is None else ' default="%s"' % POOLS[types[i]][dflt[i]][0]
+    fields_decl_attr = ''.join('<xs:attribute name="a%d" type="%s"%s/>' % (i, types[i], dv(i)) for i in range(nf) if onattr[i])
+    fields_decl_el = ''.join('<xs:element name="c%d" type="%s" minOccurs="0"%s/>' % (i, types[i], dv(i))
                              for i in range(nf) if not onattr[i])
     if tmpl.get('idel'):
         fields_decl_el += ('<xs:element name="ide" type="xs:ID" minOccurs="0"/>'
@@ -167,7 +171,9 @@ def subject(case):
 
 
 def tuple_of(row, tmpl):
-    return [None if c is None else pool(tmpl, i)[c][1] for i, c in enumerate(row['cells'])]
+    dflt = tmpl.get('defaults') or [None] * len(row['cells'])
+    return [(pool(tmpl, i)[dflt[i]][1] if (dflt[i] is not None and tmpl['onattr'][i]) else None) if c is None else pool(tmpl, i)[c][1]
+            for i, c in enumerate(row['cells'])]
 
 
 def coq_tuple(t):
@@ -327,6 +333,7 @@ def rand_tmpl(rng):
     nf = rng.choice([1, 1, 2, 2, 3])
     types = [rng.choice(TYPES) for _ in range(nf)]
     return {'nf': nf, 'types': types, 'onattr': [rng.random() < 0.7 for _ in range(nf)],
+            'defaults': [rng.randrange(len(POOLS[t])) if t != 'xs:QName' and rng.random() < 0.3 else None for t in types],
             'tns': rng.random() < (0.7 if 'xs:QName' in types else 0.2), 'idel': rng.random() < 0.35,
             'cross': rng.random() < 0.35}
 
